@@ -42,6 +42,10 @@ def canon(x):
     return '[%s]' % ', '.join(canon(v) for v in x)
   if isinstance(x, tuple):
     return '(%s)' % ', '.join(canon(v) for v in x)
+  if isinstance(x, int) and not isinstance(x, bool):
+    return repr(int(x))           # Index(1) / I(1) / 1 as a dict key
+  if x is ref.MISSING or type(x).__name__ == 'NullMap':
+    return 'MISSING'              # the record that holds nothing
   return repr(x)
 
 
@@ -215,7 +219,7 @@ MENU = [
 
 # Falsy but valid keys among the named-key operators (the main records): the
 # index 0, the mapping key 0 and the empty tuple of keys in every key position.
-MENU += [
+FALSY_MAIN = [
     _op('select(a,[0])', 'select', inp=P('a'), out=P(I(0))),
     _op('apply(f1,a,0)', 'apply', fn='f1', inp=P('a'), out=P(0)),
     _op('assign(0,f1,a)', 'assign', fn='f1', inp=P('a'), out=P(0)),
@@ -224,6 +228,7 @@ MENU += [
     _op('sink(S,[0])', 'sink', inp=P(I(0))),
     _op('sink(S,())', 'sink', inp=[]),
 ]
+MENU += FALSY_MAIN
 
 
 # Multi-entry key forms.  Every position of a 2- or 3-entry key spec is one of
@@ -308,6 +313,8 @@ def spec_name(k):
                              for n, v in k.items())
   if k is SKIP:
     return 'SKIP'
+  if k is SELF:
+    return 'SELF'
   return path_name(k) if k else 'Path()'
 
 
@@ -492,6 +499,7 @@ def clean(x):
 # bookkeeping deviations (they change the build-time verdict)
 BOOK = ('keep-skip', 'select-adds', 'sink-self', 'select-falsy-out-is-in',
         'assign-falsy-key-is-none')
+OLD_BOOK = BOOK[:3]
 
 
 def _relevant(program):
@@ -530,13 +538,21 @@ def _relevant(program):
     if (op['kind'] == 'assign' and op.get('out', []) != [] and
         pref.spec_falsy(op['out'])):
       add(i, 'assign-falsy-key-is-none')
-  return sorted(out, key=lambda d: (out[d], d))
+  return sorted(out, key=lambda d: (_FALSY_RANK.get(d, 1), out[d], d))
+
+
+# a falsy key spec in the program is the first suspect (the specific ones
+# before the general one)
+_FALSY_RANK = {'select-falsy-out-is-in': 0, 'assign-falsy-key-is-none': 0,
+               'falsy-in-is-self': 2}
 
 
 def name_build_difference(program, impl_ok):
   """Which single bookkeeping deviation gives the implementation's verdict."""
+  rel = [d for d in _relevant(program) if d in BOOK and d in _FALSY_RANK]
+  book = rel + [b for b in BOOK if b not in _FALSY_RANK]
   for n in (1, 2, 3):
-    for devs in itt.combinations(BOOK, n):
+    for devs in itt.combinations(book, n):
       if pref.validate(program, frozenset(devs))[0] == impl_ok:
         return '+'.join(devs)
   return 'unexplained:' + '+'.join(sorted({o['kind'] for o in program}))
@@ -547,7 +563,7 @@ def name_run_difference(program, records, got, err):
   implementation's observable behaviour (naming only; never a verdict)."""
   rel = _relevant(program)
   got_c = [clean(g) for g in got]
-  cands = rel + [b for b in BOOK if b not in rel]
+  cands = rel + [b for b in OLD_BOOK if b not in rel]
   for n in (1, 2, 3):
     for devs in itt.combinations(cands, n):
       dv = frozenset(devs)
@@ -566,7 +582,7 @@ def name_run_difference(program, records, got, err):
     return '~' + '+'.join(sorted(rel))
   ok0, _, tr0 = pref.validate(program)
   for n in (2, 3):
-    for devs in itt.combinations(BOOK, n):
+    for devs in itt.combinations(OLD_BOOK, n):
       okd, _, trd = pref.validate(program, frozenset(devs))
       if okd != ok0 or any(
           repr(a) != repr(b) for i, (a, b) in enumerate(zip(trd, tr0))
@@ -650,7 +666,6 @@ def check_run(st, program, stream_ids, call_too=True, built=None):
   transform built once per program (its sinks are reset); the runner is made
   afresh for every stream."""
   names = prog_names(program)
-  st.case(None, nontrivial=bool(stream_ids))
   records = [make_record(i) for i in stream_ids]
   snaps = [ref.snapshot(r) for r in records]
   in_ids = {}
@@ -658,6 +673,10 @@ def check_run(st, program, stream_ids, call_too=True, built=None):
     ref.container_ids(r, in_ids)
   replay = {'program': names, 'stream': list(stream_ids)}
   exp = pref.run(program, records)
+  st.case(None, nontrivial=bool(stream_ids) and not exp.unspecified)
+  if exp.unspecified:      # (batch over order-dependent output keys)
+    st.outcome(('unspecified',))
+    return
   if built is None:
     sinks = {i: RecSink() for i, o in enumerate(program)
              if o['kind'] == 'sink'}
@@ -719,7 +738,8 @@ def check_run(st, program, stream_ids, call_too=True, built=None):
       for i, s in sinks.items():
         want = exp.sinks[i]
         if len(s.writes) != len(want.writes) or not all(
-            ref.same(list(a[0]), list(b[0])) and ref.same(a[1], b[1])
+            ref.same(clean(list(a[0])), list(b[0])) and
+            ref.same(clean(a[1]), b[1])
             for a, b in zip(s.writes, want.writes)):
           viol('sink-saw-other-records',
                {'sink_op': i, 'sink_saw': s.writes,
@@ -769,8 +789,7 @@ def check_run(st, program, stream_ids, call_too=True, built=None):
 
 STREAMS = [s for s in enums.sequences(MAIN_RECORDS, 3)]
 # the falsy-key world: its own records; streams of <= 2 (quick) / <= 3 records
-ZSTREAMS = {True: [s for s in enums.sequences(FALSY_RECORDS, 2)],
-            False: [s for s in enums.sequences(FALSY_RECORDS, 3)]}
+ZSTREAMS = {n: [s for s in enums.sequences(FALSY_RECORDS, n)] for n in (2, 3)}
 
 
 def check_program(st, names, streams=None):
@@ -836,6 +855,104 @@ def _rebatch_unit(cases):
   return st
 
 
+# ---- aggregate with falsy keys -------------------------------------------------
+
+class ListAgg:
+  """Aggregatable fixture: the state is the list of f1(*inputs, **kw_inputs)."""
+
+  def create_state(self):
+    return []
+
+  def update_state(self, state, *a, **k):
+    return state + [f1(*a, **k)]
+
+  def merge_states(self, states):
+    return [x for s in states for x in s]
+
+  def get_result(self, state):
+    return list(state)
+
+
+AGG_IN = [P(I(0)), P(0), NOKEY, ROOT, ONE, {'x': P(I(0))}, {'x': P(0)},
+          [P(I(0)), ONE], [ONE, P(0)]]
+AGG_OUT = [SELF, P(I(0)), P(0), ROOT, NOKEY, P('x')]
+AGG_DRIVERS = ('iterate', 'call-iterator', 'call-record')
+
+
+def check_aggregate(st, i_in, i_out, stream_ids):
+  """aggregate(fn, input_keys, output_keys) with falsy keys: the aggregate sees
+  exactly the selected inputs of every record, its result lands under the
+  output key of a fresh record, the records pass through untouched."""
+  transform, _ = _libs()
+  kin, kout = AGG_IN[i_in], AGG_OUT[i_out]
+  op = {'kind': 'apply', 'inp': kin, 'out': kout}
+  names, keys = pref.in_keys(op)
+  label = 'in=%s:out=%s' % (spec_name(kin), spec_name(kout))
+  for driver in AGG_DRIVERS:
+    if driver == 'call-record' and len(stream_ids) != 1:
+      continue
+    st.case(('aggregate', i_in, i_out, stream_ids, driver),
+            nontrivial=bool(stream_ids))
+    records = [make_record(i) for i in stream_ids]
+    snaps = [ref.snapshot(r) for r in records]
+    replay = {'aggregate': [i_in, i_out, list(stream_ids)]}
+    try:
+      state = []
+      for r in snaps:
+        vals = [ref.get(r, k) for k in keys]
+        state.append(f1(**dict(zip(names, vals))) if names is not None
+                     else f1(*vals))
+      exp, exp_err = ref.multi_set(ref.MISSING, pref.out_elems(op), state), None
+    except ref.RefError as e:
+      exp, exp_err = None, str(e)
+    got, err, passed = None, None, None
+    try:
+      runner = transform.TreeTransform().aggregate(
+          ListAgg(), input_keys=lib_key(kin), output_keys=lib_key(kout)).make()
+      if driver == 'iterate':
+        it = runner.iterate(list(records))
+        passed = list(it)
+        got = it.agg_result
+      elif driver == 'call-iterator':
+        got = runner(input_iterator=list(records))
+      else:
+        got = runner(records[0])
+      got = clean(got)
+    except Exception as e:  # pylint: disable=broad-except
+      err = f'{type(e).__name__}: {str(e)[:120]}'
+    st.outcome(('aggregate', err is None, exp_err is None, repr(got)[:40]))
+    det = {'input_keys': spec_name(kin), 'output_keys': spec_name(kout),
+           'driver': driver, 'records': snaps, 'got': got, 'error': err,
+           'expected': exp, 'reference_error': exp_err}
+    if exp_err is None and err is not None:
+      st.violation(f'C08:aggregate:{driver}:raises-{err.split(":")[0]}:{label}',
+                   det, replay=replay)
+    elif exp_err is not None and err is None:
+      st.violation(f'C08:aggregate:{driver}:value-where-reference-says-error:'
+                   f'{label}', det, replay=replay)
+    elif exp_err is None and not ref.same(got, exp):
+      st.violation(f'C08:aggregate:{driver}:wrong-result:{label}', det,
+                   replay=replay)
+    if err is None and passed is not None and not (
+        len(passed) == len(records) and
+        all(a is b for a, b in zip(passed, records))):
+      st.violation(f'C08:aggregate:{driver}:records-not-passed-through:{label}',
+                   dict(det, passed=passed), replay=replay)
+    if not all(ref.same(r, s) for r, s in zip(records, snaps)):
+      st.violation(f'C08:aggregate:{driver}:mutates-caller-input:{label}',
+                   dict(det, records_after=records), replay=replay)
+
+
+def _agg_unit(item):
+  nrec, cases = item
+  st = Stats()
+  for i_in, i_out in cases:
+    for s in ZSTREAMS[nrec]:
+      if s:      # (an aggregate over nothing is not a matter of key routing)
+        check_aggregate(st, i_in, i_out, s)
+  return st
+
+
 # ---- enumeration ---------------------------------------------------------------
 
 def _valid_prefix(names):
@@ -872,14 +989,14 @@ def _unit(progs):
 
 
 def _zunit(item):
-  quick, progs = item
+  nrec, progs = item
   st = Stats()
   for names in progs:
-    check_program(st, names, ZSTREAMS[quick])
+    check_program(st, names, ZSTREAMS[nrec])
   if progs:
     st.sample({'program': list(progs[0]),
                'streams': 'all %d sequences of <= %d records of the falsy-key '
-                          'world' % (len(ZSTREAMS[quick]), 2 if quick else 3)})
+                          'world' % (len(ZSTREAMS[nrec]), nrec)})
   return st
 
 
@@ -887,7 +1004,10 @@ def run(ctx):
   quick = ctx.quick
   full = [o['name'] for o in MENU]
   # one instance per key shape + the multi-entry representatives of REDUCED
-  shapes = [n for n in full if n in _SINGLE or n in REDUCED]
+  # (of the falsy-key instances of the main menu two go into the longer chains)
+  longer = {o['name'] for o in FALSY_MAIN} - {'assign(0,f1,a)', 'sink(S,())'}
+  shapes = [n for n in full
+            if (n in _SINGLE or n in REDUCED) and n not in longer]
   plan = [(full, 2), (REDUCED, 3)] if quick else [
       (full, 2), (shapes, 3), (SMALL, 4)]
   seen, progs = set(), []
@@ -896,14 +1016,15 @@ def run(ctx):
       if p not in seen:
         seen.add(p)
         progs.append(p)
-  zplan = [(ZMENU, 2), (ZREDUCED, 3)] if quick else [
-      (ZMENU, 2), (ZREDUCED, 4)]
-  zseen, zprogs = set(), []
-  for menu, n in zplan:
+  # (menu, chain length, records per stream)
+  zplan = [(ZMENU, 2, 2), (ZREDUCED, 3, 2)] if quick else [
+      (ZMENU, 2, 3), (ZREDUCED, 3, 3), (ZREDUCED, 4, 2)]
+  zseen, zprogs = set(), {2: [], 3: []}
+  for menu, n, nrec in zplan:
     for p in programs(menu, n):
       if p not in zseen:
         zseen.add(p)
-        zprogs.append(p)
+        zprogs[nrec].append(p)
   ctx.rule = (
       'operator chains: %s (a chain is extended only while the reference '
       'accepts it: a rejected prefix decides the verdict); each accepted chain '
@@ -923,17 +1044,21 @@ def run(ctx):
       'main menu holds Index(0) / the mapping key 0 / the empty tuple of keys '
       'as output key of select and apply, assign key, input of filter and '
       'sink (7 instances); and a second world - records {int-keyed dict '
-      '{0:..,1:..}, tuple, list of 3}, every stream of <= %d of them (%d '
-      'streams) - runs every chain of length <= 2 over a menu of %d instances '
-      'and of length <= %d over %d of them; that menu puts each of Index(0), '
+      '{0:..,1:..}, tuple, list of 3}, every stream of <= 2 (13) or <= 3 (40) '
+      'of them - runs %s; that menu puts each of Index(0), '
       'the mapping key 0, the empty tuple of keys () and the empty path Key() '
       'into every key position of every operator: input key of select / '
       'apply / assign / filter / sink (alone; as keyword argument; first or '
       'second of a tuple of keys), output key of select and apply and assign '
       'key (alone; in a tuple with SKIP before / after or with a second key; '
       'in a dict-form spec), followed / preceded by batch(1|2); [1] and 1 are '
-      'the truthy controls. Same oracle clauses. Falsy-key menu: %s. Menu: '
-      '%s. Cases distinct by '
+      'the truthy controls. Same oracle clauses. Aggregate with falsy keys: '
+      'aggregate(fn, input_keys, output_keys) for %d input specs (Index(0), 0, '
+      '(), Key(), keyword and tuple forms, control [1]) x %d output specs '
+      '(SELF, Index(0), 0, Key(), (), x) x the same non-empty streams through iterate + '
+      'agg_result, make()(input_iterator=stream) and make()(record): result = '
+      'the list of per-record inputs under the output key, records passed '
+      'through untouched. Falsy-key menu: %s. Menu: %s. Cases distinct by '
       'construction; non-trivial = non-empty stream.' % (
           ' and '.join('every chain of length <= %d over %s' % (n, what)
                        for (_, n), what in zip(plan, [
@@ -946,8 +1071,11 @@ def run(ctx):
                            'the small menu of %d instances' % len(SMALL)]))),
           len(STREAMS),
           4 if quick else 6,
-          2 if quick else 3, len(ZSTREAMS[quick]), len(ZMENU), zplan[1][1],
-          len(ZREDUCED), ', '.join(ZMENU), ', '.join(full)))
+          ' and '.join(
+              'every chain of length <= %d over %d instances on the streams '
+              'of <= %d records' % (n, len(m), nrec) for m, n, nrec in zplan),
+          len(AGG_IN), len(AGG_OUT), ', '.join(ZMENU),
+          ', '.join(full)))
   ctx.assumptions += [
       'callables are pure string-building functions of their arguments; the '
       'filter predicates depend on the selected value (no argument at all: '
@@ -964,10 +1092,13 @@ def run(ctx):
   ]
   units = [u for u in enums.chunks(ctx.shuffled(progs), 256 if quick else 1024)]
   ctx.pmap(_unit, units)
-  ctx.pmap(_zunit, [(quick, u) for u in enums.chunks(
-      ctx.shuffled(zprogs), 64 if quick else 256)])
-  ctx.notes['falsy_key_programs'] = len(zprogs)
-  ctx.notes['falsy_key_streams'] = len(ZSTREAMS[quick])
+  ctx.pmap(_zunit, [(nrec, u) for nrec in (2, 3) for u in enums.chunks(
+      ctx.shuffled(zprogs[nrec]), 64 if quick else 256)])
+  agg = [(i, o) for i in range(len(AGG_IN)) for o in range(len(AGG_OUT))]
+  ctx.pmap(_agg_unit, [(2 if quick else 3, u)
+                       for u in enums.chunks(ctx.shuffled(agg), 16)])
+  ctx.notes['falsy_key_aggregates'] = len(agg)
+  ctx.notes['falsy_key_programs'] = len(zprogs[2]) + len(zprogs[3])
   nmax = 4 if quick else 6
   rb = [(b, f, n) for b in (1, 2, 3) for f in range(1, 3 * b + 1)
         for n in range(0, nmax + 1)]
@@ -981,6 +1112,10 @@ def replay(ctx, data):
   r = data['replay']
   if 'assign_rebatched' in r:
     check_assign_rebatched(ctx, *r['assign_rebatched'])
+    return
+  if 'aggregate' in r:
+    check_aggregate(ctx, r['aggregate'][0], r['aggregate'][1],
+                    tuple(r['aggregate'][2]))
     return
   program = [BY_NAME[n] for n in r['program']]
   if 'stream' in r:
